@@ -9,3 +9,7 @@ cargo build --release --bins 2>&1 | tail -2
 cargo build --release --bin c14 --features faster-hex 2>&1 | tail -1
 cd rlibdep
 cargo build --target-dir ../target/rlibdep 2>&1 | tail -1
+# warm the Miri build used by the quick tier of C09 (interpreter sysroot + harness under Miri)
+cd ..
+echo "[]" > ../work/empty_cases.json
+MIRIFLAGS="-Zmiri-disable-isolation" cargo +nightly miri run --bin c09 --target-dir target/miri -- --replay-many ../work/empty_cases.json 2>&1 | tail -1
